@@ -102,10 +102,104 @@ def classify_path(p, cc_idx):
             "nextpos": nextpos}
 
 
+def variant_order(src_rel, enum):
+    import os
+    from ..common import REPO
+    with open(os.path.join(REPO, src_rel)) as f:
+        txt = f.read()
+    m = re.search(r"pub(?:\([\w:]+\))? enum %s \{(.*?)\n\}" % enum, txt, re.S)
+    if not m:
+        raise core.Unsupported("enum %s not found" % enum)
+    return re.findall(r"^\s*(\w+)\s*(?:\(|\{|,|=)", m.group(1), re.M)
+
+
+def cc_setters(mir, cc_idx):
+    """functions whose body assigns MachineState.cc"""
+    out = set()
+    pat = re.compile(r"MachineState\)\.%d: usize\) = |\(\(\*_1\)\.%d: usize\) = " % (cc_idx, cc_idx))
+    for name, spans in mir.index.items():
+        for (s0, e0) in spans:
+            if any(pat.search(l) for l in mir.lines[s0:e0]):
+                out.add(name)
+    return out
+
+
+def generation_restored_first(mir, cc_idx):
+    """In the three dispatch arms that examine clause stamps, on every path the call's generation is
+    (re-)established - a store to cc or a call to a function that stores to cc - before the first
+    find_living_dynamic* call."""
+    dl = mir.body(mir.find(r"::dispatch_loop$")[0])
+    head = util.loop_head(dl)
+    setters = cc_setters(mir, cc_idx)
+    setter_tail = {n.split("::")[-1] for n in setters if not n.endswith("dispatch_loop")}
+    # Instruction discriminants of the two stamp-carrying variants, read off find_living_dynamic_else
+    fl = mir.body(mir.find(r"::find_living_dynamic_else$")[0])
+    disc = {}
+    for bb, ls in fl.blocks.items():
+        m = re.match(r"^switchInt\(move (_\d+)\) -> \[(.*)\];$", ls[-1])
+        if not m:
+            continue
+        for val, tgt in re.findall(r"(\d+): (bb\d+)", m.group(2)):
+            txt = " ".join(fl.blocks.get(tgt, []))
+            mm = re.search(r" as (Dynamic\w*Else)\)", txt)
+            if mm:
+                disc.setdefault(mm.group(1), int(val))
+    if set(disc) != {"DynamicElse", "DynamicInternalElse"}:
+        raise core.Unsupported("instruction discriminants not found: %s" % disc)
+    big = [(bb, ls[-1]) for bb, ls in dl.blocks.items()
+           if ls[-1].startswith("switchInt") and ls[-1].count(": bb") > 100]
+    if len(big) != 1:
+        raise core.Unsupported("main instruction switch not unique")
+    tmap = dict(re.findall(r"(\d+): (bb\d+)", big[0][1]))
+    entries = {v: tmap[str(d)] for v, d in disc.items()}
+    # IndexingLine::DynamicIndexedChoice arm: a switch on the discriminant of an &IndexingLine
+    il = variant_order("src/instructions.rs", "IndexingLine")
+    if "DynamicIndexedChoice" not in il:
+        raise core.Unsupported("IndexingLine variants: %s" % il)
+    dval = il.index("DynamicIndexedChoice")
+    cand = []
+    for bb, ls in dl.blocks.items():
+        m = re.match(r"^switchInt\(move (_\d+)\) -> \[(.*)\];$", ls[-1])
+        if not m:
+            continue
+        dm = [re.match(r"^%s = discriminant\(\(\*(_\d+)\)\);$" % re.escape(m.group(1)), l) for l in ls]
+        dm = [x for x in dm if x]
+        if dm and "IndexingLine" in dl.decls.get(dm[0].group(1), ""):
+            t2 = dict(re.findall(r"(\d+): (bb\d+)", m.group(2)))
+            if str(dval) in t2:
+                cand.append(t2[str(dval)])
+    # only the arm that reads stamps (calls find_living_dynamic)
+    out = []
+    for name, entry in list(entries.items()) + [("DynamicIndexedChoice", c) for c in cand]:
+        paths = core.Executor(dl, stop_blocks=[head], max_depth=150, max_paths=1500).run(entry)
+        n_read = 0
+        bad = 0
+        for p in paths:
+            first = None
+            for i, e in enumerate(p.events):
+                if e[0] == "call" and re.search(r"find_living_dynamic(_else)?$", e[1]):
+                    first = i
+                    break
+            if first is None:
+                continue
+            n_read += 1
+            ok = False
+            for e in p.events[:first]:
+                if e[0] == "store" and e[1].endswith(".%d" % cc_idx) and e[1].startswith("((*_1).0)"):
+                    ok = True
+                if e[0] == "call" and e[1].split("::")[-1] in setter_tail:
+                    ok = True
+            bad += (not ok)
+        if n_read:
+            out.append({"arm": name, "entry": entry, "paths_reading_stamps": n_read, "unguarded": bad})
+    return out
+
+
 def run(thorough=False):
     try:
         mir, secs, cached = util.get()
         cc_idx = util.struct_field_index("src/machine/machine_state.rs", "MachineState", "cc")
+        gen = generation_restored_first(mir, cc_idx)
         regions = [("find_living_dynamic_else", r"::find_living_dynamic_else$"),
                    ("find_living_dynamic", r"::find_living_dynamic$"),
                    ("dynamic_external_of_clause_is_valid",
@@ -170,6 +264,21 @@ def run(thorough=False):
         res["exit"] = EXIT_INCONCLUSIVE
         return res
     viol = []
+    for g in gen:
+        res["evaluations"] += 1
+        good = g["unguarded"] == 0
+        res["distinct_nontrivial"] += good
+        if not good:
+            viol.append({"region": "dispatch_loop " + g["arm"], "problem": "%d of %d paths examine clause "
+                         "stamps before the call's generation is established" % (
+                             g["unguarded"], g["paths_reading_stamps"])})
+        res["samples"].append({"query": "dispatch_loop %s arm: generation established before the first "
+                               "stamp read on all %d paths" % (g["arm"], g["paths_reading_stamps"]),
+                               "answer": "holds" if good else "fails"})
+    if len(gen) < 3:
+        res["exit"] = EXIT_INCONCLUSIVE
+        res["mirsmt_error"] = "expected three stamp-reading dispatch arms, found %s" % [g["arm"] for g in gen]
+        return res
     for (rname, arm, n), r, q in zip(meta, br["results"], queries):
         if r["answer"] == "unsat":
             res["distinct_nontrivial"] += 1
@@ -178,8 +287,9 @@ def run(thorough=False):
         if len(res["samples"]) < 8:
             res["samples"].append({"region": rname, "arm": [a for a in arm], "paths": n,
                                    "answer": r["answer"], "query": q.split("\n")[-1][:400]})
-    log("  mirsmt C09: %d arms, %d unsat, %d violations (z3 %.2fs)" % (
-        len(queries), res["distinct_nontrivial"], len(viol), br["z3_s"]))
+    log("  mirsmt C09: %d stamp predicates + %d generation-order obligations, %d hold, %d "
+        "violations (z3 %.2fs)" % (len(queries), len(gen), res["distinct_nontrivial"], len(viol),
+                                   br["z3_s"]))
     if viol:
         res["mirsmt_violations"] = viol
         from .. import prolog
